@@ -27,6 +27,21 @@ class IDivMLP(nn.Module):
         return self.fc2(h)
 
 
+class IMulTensorMLP(nn.Module):
+    """fc1 -> in-place multiplication of the (possibly quantized) activation by a 0-dim buffer tensor (a learned / stored gain) -> fc2"""
+
+    def __init__(self, fin=16, hid=12, fout=8):
+        super().__init__()
+        self.fc1 = nn.Linear(fin, hid)
+        self.fc2 = nn.Linear(hid, fout)
+        self.register_buffer("gain", torch.tensor(0.25))
+
+    def forward(self, x):
+        h = self.fc1(x)
+        h *= self.gain
+        return self.fc2(h)
+
+
 MODELS = {
     "lin": lambda: nn.Sequential(nn.Linear(16, 8)),
     "mlp": lambda: nn.Sequential(nn.Linear(16, 12), nn.ReLU(), nn.Linear(12, 8)),
@@ -35,6 +50,7 @@ MODELS = {
     "wide": lambda: nn.Sequential(nn.Linear(160, 6), nn.ReLU(), nn.Linear(6, 4)),
     "w256": lambda: nn.Sequential(nn.Linear(256, 4, bias=False)),
     "idiv": lambda: IDivMLP(),
+    "imul_t": lambda: IMulTensorMLP(),
 }
 
 
@@ -57,7 +73,7 @@ BIG = {
     "big_k27": lambda: _nonneg_lin(16384, 27),
 }
 BIG_SHAPE = {"big_lin": (2, 4096), "big_pair": (2, 2048), "big_conv": (1, 130, 4, 4), "big_k25": (2, 48), "big_k27": (2, 48)}
-IN_SHAPE = {"lin": (3, 16), "mlp": (3, 16), "ln": (2, 2, 16), "conv": (2, 2, 6, 6), "wide": (3, 160), "w256": (2, 256), "idiv": (3, 16)}
+IN_SHAPE = {"lin": (3, 16), "mlp": (3, 16), "ln": (2, 2, 16), "conv": (2, 2, 6, 6), "wide": (3, 160), "w256": (2, 256), "idiv": (3, 16), "imul_t": (3, 16)}
 
 
 def build_float(name, dtname):
